@@ -17,5 +17,6 @@ RULE_TEXT = "obligation = (rule, streaming combination / helper / kwarg); evalua
 def run(ctx) -> None:
     ctx.rules_run += ["G1", "G2", "G3", "G4", "G5", "G7", "G6"]
     template.rule_G(ctx)
+    template.rule_Y2iii(ctx, "G8")     # a stub method body must be able to run: names it uses are imported
     rule_G6(ctx, "G6")
     ctx.floor("G1", "cardinality obligations", len([o for o in ctx.obs if o.rule == "G1"]), 8)
